@@ -79,37 +79,44 @@ package rle
 
 //@ func (*RLE).Read
 //@   requires r != nil && dyn(in) == typeid("*bytes.Buffer") && payload(in) != 0
-//@   modifies obj(in)
+//@   modifies obj(in), rfault
 //@   ensures freshOrNil(res0)
+//@   ensures[C10] err == nil ==> (rfault ==> old(rfault))
 //@ loop (*RLE).Read#1
-//@   invariant freshOrNil(out) && rr != nil && freshsince(rr)
+//@   invariant freshOrNil(out) && rr != nil && freshsince(rr) && (rfault ==> old(rfault))
 
 //@ func readRLEBitPacked
 //@   requires dyn(r) == typeid("*bytes.Reader") && payload(r) != 0
-//@   modifies obj(r)
+//@   modifies obj(r), rfault
 //@   ensures freshOrNil(res0)
+//@   ensures[C10] err == nil ==> (rfault ==> old(rfault))
 //@ loop readRLEBitPacked#1
-//@   invariant freshOrNil(out) && freshsince(rawBytes)
+//@   invariant freshOrNil(out) && freshsince(rawBytes) && (rfault ==> old(rfault))
 
 //@ func readRLE
 //@   requires dyn(r) == typeid("*bytes.Reader") && payload(r) != 0
-//@   modifies obj(r)
+//@   modifies obj(r), rfault
 //@   ensures freshOrNil(res0)
+//@   ensures[C10] err == nil ==> (rfault ==> old(rfault))
 //@ loop readRLE#1
-//@   invariant freshsince(out)
+//@   invariant freshsince(out) && (rfault ==> old(rfault))
 
 //@ func readIntLittleEndianPaddedOnBitWidth
 //@   requires dyn(in) == typeid("*bytes.Reader") && payload(in) != 0
-//@   modifies obj(in)
+//@   modifies obj(in), rfault
+//@   ensures[C10] err == nil ==> (rfault ==> old(rfault))
 //@ func readIntLittleEndianOnOneByte
 //@   requires dyn(in) == typeid("*bytes.Reader") && payload(in) != 0
-//@   modifies obj(in)
+//@   modifies obj(in), rfault
+//@   ensures[C10] err == nil ==> (rfault ==> old(rfault))
 //@ func readIntLittleEndianOnTwoBytes
 //@   requires dyn(in) == typeid("*bytes.Reader") && payload(in) != 0
-//@   modifies obj(in)
+//@   modifies obj(in), rfault
+//@   ensures[C10] err == nil ==> (rfault ==> old(rfault))
 
 //@ func readLEB128
 //@   requires dyn(r) == typeid("*bytes.Reader") && payload(r) != 0
-//@   modifies obj(r)
+//@   modifies obj(r), rfault
+//@   ensures[C10] err == nil ==> (rfault ==> old(rfault))
 //@ loop readLEB128#1
-//@   invariant freshsince(b)
+//@   invariant freshsince(b) && (rfault ==> old(rfault))
